@@ -31,7 +31,7 @@ inline constexpr struct remainder {
     #endif
         }
 #endif
-        return etl::detail::gcem::fmod(x, y);
+        return etl::detail::gcem::remainder(x, y);
     }
 } remainder;
 
